@@ -2,23 +2,24 @@
 # tools/seedtest.sh <PROPERTY> <worktree with the change applied and _seed/{patch.diff,demo.py,notes.md}> <name> [other property ids to run too]
 # Confirms: suite unchanged with the change; demo fails with / passes without; runs ./check against the changed tree.
 set -u
+V=$(cd "$(dirname "$0")/.." && pwd)
 P=$1; W=$2; NAME=$3; shift 3; EXTRA="$@"
 cd "$W" || exit 2
 SUITE_WITH=$(/venv/bin/python -m pytest -q -p no:cacheprovider --timeout=900 2>&1 | tail -1)
-/venv/bin/python _seed/demo.py >/tmp/demo_with.log 2>&1; DEMO_WITH=$?
-git diff -- . ':(exclude)_seed' > /tmp/seed_patch.diff
+/venv/bin/python _seed/demo.py >/tmp/demo_with_$NAME.log 2>&1; DEMO_WITH=$?
+git diff -- . ':(exclude)_seed' > /tmp/seed_patch_$NAME.diff
 # (git stash is shared between worktrees: never use it here)
-git apply -R /tmp/seed_patch.diff
-/venv/bin/python _seed/demo.py >/tmp/demo_without.log 2>&1; DEMO_WITHOUT=$?
+git apply -R /tmp/seed_patch_$NAME.diff
+/venv/bin/python _seed/demo.py >/tmp/demo_without_$NAME.log 2>&1; DEMO_WITHOUT=$?
 SUITE_WITHOUT=$(/venv/bin/python -m pytest -q -p no:cacheprovider --timeout=900 2>&1 | tail -1)
-git apply /tmp/seed_patch.diff
+git apply /tmp/seed_patch_$NAME.diff
 echo "suite with change:    $SUITE_WITH"
 echo "suite without change: $SUITE_WITHOUT"
 echo "demo exit with change: $DEMO_WITH   without: $DEMO_WITHOUT"
-cd /verif
-OUT=/verif/seeded/$NAME
+cd "$V"
+OUT=$V/seeded/$NAME
 mkdir -p $OUT
-cp /tmp/seed_patch.diff $OUT/patch.diff; cp $W/_seed/demo.py $OUT/demo.py; cp $W/_seed/notes.md $OUT/notes.md 2>/dev/null
+cp /tmp/seed_patch_$NAME.diff $OUT/patch.diff; cp $W/_seed/demo.py $OUT/demo.py; cp $W/_seed/notes.md $OUT/notes.md 2>/dev/null
 RES=""
 for id in $P $EXTRA; do
   VERIF_REPO=$W ./check $id > /tmp/seed_check_$id.log 2>&1; RC=$?
@@ -27,13 +28,13 @@ for id in $P $EXTRA; do
   echo "check $id -> exit $RC: $LINE"; echo "    $FIRST"
   RES="$RES{\"check\": \"$id\", \"exit\": $RC, \"line\": $(python3 -c "import json,sys;print(json.dumps(sys.argv[1]))" "$LINE"), \"first\": $(python3 -c "import json,sys;print(json.dumps(sys.argv[1]))" "$FIRST")},"
 done
-python3 - "$P" "$NAME" "$SUITE_WITH" "$SUITE_WITHOUT" "$DEMO_WITH" "$DEMO_WITHOUT" "[${RES%,}]" <<'PY'
+python3 - "$V" "$P" "$NAME" "$SUITE_WITH" "$SUITE_WITHOUT" "$DEMO_WITH" "$DEMO_WITHOUT" "[${RES%,}]" <<'PY'
 import json,sys
-p,name,sw,swo,dw,dwo,res=sys.argv[1:8]
+v,p,name,sw,swo,dw,dwo,res=sys.argv[1:9]
 meta={'property':p,'name':name,'suite_with_change':sw,'suite_without_change':swo,'demo_exit_with_change':int(dw),'demo_exit_without_change':int(dwo),
       'checks_run_against_changed_tree':json.loads(res),
       'what_it_needs_to_manifest':'see notes.md','ran':'tools/seedtest.sh (suite with/without, demo with/without, ./check with VERIF_REPO=<changed worktree>)'}
-json.dump(meta,open(f'/verif/seeded/{name}/meta.json','w'),indent=1)
+json.dump(meta,open(f'{v}/seeded/{name}/meta.json','w'),indent=1)
 PY
 # regenerate Gen/ from the real tree again
 for id in $P $EXTRA; do ./check $id > /tmp/seed_after_$id.log 2>&1; echo "unchanged tree $id: $(tail -1 /tmp/seed_after_$id.log | cut -c1-120)"; done
